@@ -46,17 +46,20 @@ class CommandHelp(AbstractHelp):
     def _render_usage(self, layout, command):  # type: (BlockLayout, Command) -> None
         formats_to_print = []
 
-        # Start with the default commands
-        if command.has_default_sub_commands():
-            # If the command has default commands, print them
-            for sub_command in command.default_sub_commands:
-                # The name of the sub command is only optional (i.e. printed
-                # wrapped in brackets: "[sub]") if the command is not
-                # anonymous
-                name_optional = not sub_command.config.is_anonymous()
+        # Start with the default commands: if the command has (visible)
+        # default commands, print them
+        for sub_command in command.default_sub_commands:
+            if sub_command.config.is_hidden():
+                continue
 
-                formats_to_print.append((sub_command.args_format, name_optional))
-        else:
+            # The name of the sub command is only optional (i.e. printed
+            # wrapped in brackets: "[sub]") if the command is not
+            # anonymous
+            name_optional = not sub_command.config.is_anonymous()
+
+            formats_to_print.append((sub_command.args_format, name_optional))
+
+        if not formats_to_print:
             # Otherwise print the command's usage itself
             formats_to_print.append((command.args_format, False))
 
